@@ -73,13 +73,17 @@ class CliRun:
         self.rc, self.out, self.err, self.files, self.trace = rc, out, err, files, trace
 
 
-def run_cli(bdir, argv, files, workdir, timeout=120):
-    """runs the sanitized Multitensor binary in workdir with the given input files"""
-    shutil.rmtree(workdir, ignore_errors=True)
-    os.makedirs(workdir)
+def run_cli(bdir, argv, files, workdir, timeout=120, fresh=True, mtime=None):
+    """runs the sanitized Multitensor binary in workdir with the given input files (fresh=False: the directory is kept
+    as the previous invocation left it and the input files are replaced in place; mtime: the time stamp they get)"""
+    if fresh:
+        shutil.rmtree(workdir, ignore_errors=True)
+    os.makedirs(workdir, exist_ok=True)
     for name, content in files.items():
         with open(os.path.join(workdir, name), "wb") as f:
             f.write(content.encode("utf-8") if isinstance(content, str) else content)
+        if mtime is not None:
+            os.utime(os.path.join(workdir, name), (mtime, mtime))
     env = dict(os.environ)
     env.update(C.SAN_ENV)
     env["ASAN_OPTIONS"] += ":detect_leaks=0"
@@ -296,6 +300,7 @@ class C13(Check):
             if "rcase" not in c or not lib or lib.get("err") != ["0"]:
                 continue
             self.files_vs_library(c, r, lib)
+        self.cli_histories(rng, cases, work)
         shutil.rmtree(work, ignore_errors=True)
         # writers: model vs implementation on random data
         wl = []
@@ -318,6 +323,55 @@ class C13(Check):
                             "the binary built from the working tree is observed through its call_start trace event and its files, compared with the model's call record and with an "
                             "in-process library run; non-trivial = every run that reached the library; distinct by (argv, files)")
 
+    def cli_histories(self, rng, cases, work):
+        """successive invocations in one working directory: the adjacency file is replaced in place by other content of
+        the same length with the same time stamp (`cp -p` of equally sized folds), the options stay; the second
+        invocation must write what it writes in a directory it has never seen"""
+        def masked(path):
+            return [l for l in read_tokens(path) if l and l[:2] != ["#", "Duration"]]
+        n = 0
+        for c in cases:
+            if n >= (8 if self.tier == "quick" else 60):
+                break
+            text = c["files"][c["adjname"]]
+            lines = text.split("\n")
+            cand = [i for i, l in enumerate(lines) if len(l.split()) >= 3 and len(l.split()[-1]) == 1 and l.split()[-1].isdigit()]
+            if not cand:
+                continue
+            i = rng.choice(cand)
+            l = lines[i]
+            j = len(l.rstrip()) - 1
+            d = int(l[j])
+            lines[i] = l[:j] + str(d % 3 + 1) + l[j + 1:]
+            files2 = dict(c["files"])
+            files2[c["adjname"]] = "\n".join(lines)
+            if len(files2[c["adjname"]]) != len(text) or files2[c["adjname"]] == text:
+                continue
+            n += 1
+            stamp = 1700000000 + n
+            wd = os.path.join(work, "hist%d" % n)
+            r1 = run_cli(self.bdir, c["argv"], c["files"], wd, mtime=stamp)
+            r2 = run_cli(self.bdir, c["argv"], files2, wd, fresh=False, mtime=stamp)
+            r3 = run_cli(self.bdir, c["argv"], files2, os.path.join(work, "hist%d_fresh" % n), mtime=stamp)
+            self.cov["evaluations"] += 3
+            if r1.rc != 0 or r3.rc != 0:
+                continue
+            self.monitor("command-line histories (same directory, input replaced in place)")
+            self.nontrivial(("history", tuple(c["argv"]), files2[c["adjname"]]))
+            outdir = c["opts"].get("o", "results")
+            bad = []
+            if r2.rc != r3.rc:
+                bad.append("exit status %s, in a fresh directory %s" % (r2.rc, r3.rc))
+            for rel in sorted(f for f in r3.files if f.startswith(outdir + "/")):
+                if rel not in r2.files:
+                    bad.append(rel + " not written")
+                elif masked(r2.files[rel]) != masked(r3.files[rel]):
+                    bad.append(rel + " differs")
+            if bad:
+                self.violate("cli-history", "second invocation in a used directory (adjacency file replaced by %d other bytes, same time stamp) "
+                             "does not write what it writes in a fresh directory: %s" % (len(text), "; ".join(bad)),
+                             {"argv": c["argv"], "files_first_invocation": c["files"], "files": files2, "time_stamp_of_the_inputs": stamp})
+
     def model_files(self, c, r, m):
         outdir = c["opts"].get("o", "results")
         if m.get("exit") != ["ok"]:
@@ -325,11 +379,13 @@ class C13(Check):
             return
         self.monitor("file sets compared with the model's cliMain")
         want = set(m.get("files", []))
-        got = {os.path.basename(f) for f in r.files}
+        got = {os.path.basename(f) for f in r.files if f.startswith(outdir + "/")}
         if want != got:
             self.corr_broken.append(("clirun", c["cid"], "files", "impl=%s model=%s" % (sorted(got), sorted(want)), " ".join(c["argv"])))
             return
         for rel, path in r.files.items():
+            if not rel.startswith(outdir + "/"):
+                continue
             name = os.path.basename(rel)
             impl_lines = [l for l in read_tokens(path) if l]
             model_lines = []
@@ -383,8 +439,12 @@ class C13(Check):
         replay = {"argv": c["argv"], "files": c["files"], "records": c["recs"], "library_case": c["rcase"].line("lib")}
         bad = []
         want_files = {outdir + "/u_out.dat", outdir + "/w_out.dat", outdir + "/run_info.dat"} | ({outdir + "/v_out.dat"} if c["directed"] else set())
-        if set(r.files) != want_files:
-            bad.append("files written %s, expected %s" % (sorted(r.files), sorted(want_files)))
+        # the result files are those of the output folder (what else the binary leaves elsewhere is reported as coverage)
+        in_out = {f for f in r.files if f.startswith(outdir + "/")}
+        for f in sorted(set(r.files) - in_out):
+            self.dist("file outside the output folder: " + os.path.basename(f))
+        if in_out != want_files:
+            bad.append("files written %s, expected %s" % (sorted(in_out), sorted(want_files)))
         N = len(lib["labels"])
         u = floats(lib["u"])
         v = floats(lib["v"])
